@@ -365,6 +365,17 @@ def handlerPermission : String → Option String
   | "console" => some "console"                  -- consolehandler.cpp:81
   | _ => none
 
+/-- What the model and the harness assume about the permission checks found in the source (the generated
+    table `Gen.handlerPermissions`: normalised expressions, non-literal operands as `<>`): the strings used for
+    the dispatched handlers occur in it, and no check asks for the empty permission.  Further entries (new
+    handlers), their order and the files they live in are of no concern. -/
+def usedPermissionExprs : List String :=
+  ["objects/query/<>", "objects/modify/<>", "objects/delete/<>", "actions/<>", "templates/query/<>",
+   "variables", "types", "status/query", "console"]
+
+def permissionTableOk (table : List String) : Bool :=
+  usedPermissionExprs.all table.contains && table.all (· != "")
+
 /-- CheckPermission at the head of these handlers: no matching entry ⇒ the request fails (404). -/
 def grantStatus (u : User) (perm : String) : Nat := if hasPermission u perm then 200 else 404
 
